@@ -239,6 +239,11 @@ func (c *Conn) Reset() {
 	p.mu.Unlock()
 }
 
+// SetAddr overrides the local address of end i (before the pair is used): lets
+// a test present address forms a real listener can produce (IPv4-mapped, zoned,
+// non-TCP).
+func (p *Pair) SetAddr(i int, a net.Addr) { p.addr[i] = a }
+
 func (c *Conn) LocalAddr() net.Addr                { return c.p.addr[c.i] }
 func (c *Conn) RemoteAddr() net.Addr               { return c.p.addr[1-c.i] }
 func (c *Conn) SetDeadline(t time.Time) error      { return nil }
